@@ -596,7 +596,7 @@ func tableCases(g *vlib.Rng) {
 	for _, c := range []string{"order", "halforder", "p", "gx", "gy", "lambda", "beta", "a1b2", "b1", "a2", "window_a", "window_g"} {
 		runCase("const "+c, "const")
 	}
-	r.Extra["exhaustive"] = "all 4096+4096+1024+1 precomputed table entries compared with recomputed multiples of G and with the regenerated Lean tables"
+	r.Extra["exhaustive_part"] = "all 4096+4096+1024+1 precomputed table entries compared with recomputed multiples of G and with the regenerated Lean tables"
 }
 
 func generate() {
